@@ -523,6 +523,21 @@ func (s *Sim) byzantine(d *delivery) {
 			s.enqueue(&delivery{from: d.from, to: -1, broadcast: true, data: append([]byte{}, d.data...)}, 0)
 		}
 	case d.broadcast && d.data[0] == TagAnswer:
+		// a dealer may answer correctly in public and then privately send the complainer a different, well-formed share
+		if di != nil && len(d.data) == 34 && int(d.data[1]) < s.N && g.Chance("shareAfterAnswer", 1, 5) {
+			c := int(d.data[1])
+			x := new(big.Int).SetBytes(d.data[2:])
+			x.Add(x, big.NewInt(1)).Mod(x, scalarR)
+			if x.Sign() == 0 {
+				x.SetInt64(1)
+			}
+			late := scalar32(x)
+			if di.Alt[c] != nil && g.Bool("shareAfterAnswerAlt") {
+				late = di.Alt[c]
+			}
+			s.class("answer:followedByPrivateInconsistentShare")
+			defer s.enqueue(&delivery{from: d.from, to: c, data: append([]byte{TagShare}, late...)}, 0)
+		}
 		switch g.Int("answerFault", 0, 8) {
 		case 0, 1, 2:
 			s.enqueue(d, 0)
